@@ -231,35 +231,13 @@ func (f *Formatter) formatArgument(arg *ast.Argument) {
 func (f *Formatter) walkArgumentList(s ast.SelectionSet) map[string]string {
 	res := make(map[string]string)
 	for _, field := range common.SelectionSetToFields(s, nil) {
-		for _, a := range field.Arguments {
-			if field.Definition == nil || field.Definition.Arguments == nil {
-				break
-			}
-
-			if a.Value == nil {
-				continue
-			}
-
-			ad := field.Definition.Arguments.ForName(a.Name)
-
-			if ad == nil {
-				continue
-			}
-
-			if len(a.Value.Children) > 0 && f.schema != nil {
-				typeDef, ok := f.schema.Types[ad.Type.Name()]
-				if !ok {
-					continue
-				}
-
-				for k, v := range f.walkChildrenArgumentList(typeDef, a.Value.Children) {
-					res[k] = v
-				}
-				continue
-			}
-
-			if a.Value.Kind == ast.Variable {
-				res[a.Value.Raw] = ad.Type.String()
+		if field.Definition != nil {
+			f.walkArguments(field.Arguments, field.Definition.Arguments, res)
+		}
+		// variables used inside directives of the field, f.e. hello @include(if: $someVariable)
+		for _, dir := range field.Directives {
+			if dir.Definition != nil {
+				f.walkArguments(dir.Arguments, dir.Definition.Arguments, res)
 			}
 		}
 		if field.SelectionSet != nil {
@@ -271,6 +249,38 @@ func (f *Formatter) walkArgumentList(s ast.SelectionSet) map[string]string {
 	}
 
 	return res
+}
+
+// walkArguments adds to res the variables used in arguments of a field or of a directive,
+// each with the type its definition declares at that position
+func (f *Formatter) walkArguments(args ast.ArgumentList, defs ast.ArgumentDefinitionList, res map[string]string) {
+	for _, a := range args {
+		if a.Value == nil {
+			continue
+		}
+
+		ad := defs.ForName(a.Name)
+
+		if ad == nil {
+			continue
+		}
+
+		if len(a.Value.Children) > 0 && f.schema != nil {
+			typeDef, ok := f.schema.Types[ad.Type.Name()]
+			if !ok {
+				continue
+			}
+
+			for k, v := range f.walkChildrenArgumentList(typeDef, a.Value.Children) {
+				res[k] = v
+			}
+			continue
+		}
+
+		if a.Value.Kind == ast.Variable {
+			res[a.Value.Raw] = ad.Type.String()
+		}
+	}
 }
 
 func (f *Formatter) walkChildrenArgumentList(typeDef *ast.Definition, childs ast.ChildValueList) map[string]string {
